@@ -19,9 +19,14 @@ func createDynForEMADynamicSampler(c *config.EMADynamicSamplerConfig) *dynsample
 		maxKeys = 500
 	}
 
+	adjustmentInterval := time.Duration(c.AdjustmentInterval)
+	if adjustmentInterval < 0 { // passes validation; time.NewTicker panics on it. 0 = dynsampler's default
+		adjustmentInterval = 0
+	}
+
 	dynsampler := &dynsampler.EMASampleRate{
 		GoalSampleRate:             c.GoalSampleRate,
-		AdjustmentIntervalDuration: time.Duration(c.AdjustmentInterval),
+		AdjustmentIntervalDuration: adjustmentInterval,
 		Weight:                     c.Weight,
 		AgeOutValue:                c.AgeOutValue,
 		BurstDetectionDelay:        c.BurstDetectionDelay,
